@@ -143,8 +143,9 @@ def _ch_back(L):
         ('head', z3.And(0 <= best, best < n, m >= 1, ridx.len == m, ridx[0] == best, ridx[m - 1] == L.b0, 0 <= L.b0, L.b0 < n)),
         ('members', forall(t, z3.Implies(rng(0, t, m), z3.And(0 <= ridx[t], ridx[t] < n, res.raw(t).t == pre.raw(ridx[t]).t)), [ridx[t]])),
         ('strictly_increasing', forall([t, t2], z3.Implies(z3.And(0 <= t, t < t2, t2 < m), ridx[t] < ridx[t2]), [MP(ridx[t], ridx[t2])])),
-        ('linked', forall(t, z3.Implies(z3.And(0 <= t, t + 1 < m), z3.And(z3.Not(prv[ridx[t + 1]].none), prv[ridx[t + 1]].val == ridx[t],
-                                                                          z3.Not(jn(ridx[t], ridx[t + 1])))), [ridx[t + 1]])),
+        # indexed by the later member u (pattern ridx[u] carries no arithmetic)
+        ('linked', forall(t, z3.Implies(z3.And(1 <= t, t < m), z3.And(z3.Not(prv[ridx[t]].none), prv[ridx[t]].val == ridx[t - 1],
+                                                                      z3.Not(jn(ridx[t - 1], ridx[t])))), [ridx[t]])),
         ('telescoped_total', cum[L.b0].v == cum[best].v - pre[best].segmentScore + L.tot)]
 
 
@@ -192,7 +193,7 @@ def _ch_ensures(C, res):
             forall(t, z3.Implies(rng(0, t, m), z3.And(0 <= ridx[t], ridx[t] < n, res.raw(t).t == pre.raw(ridx[t]).t)), [ridx[t]]),
             forall([t, t2], z3.Implies(z3.And(0 <= t, t < t2, t2 < m), ridx[t] < ridx[t2]), [MP(ridx[t], ridx[t2])]))),
         ('consecutive_members_are_never_joined_by_minus_infinity',
-         forall(t, z3.Implies(z3.And(0 <= t, t + 1 < m), z3.Not(jn(ridx[t], ridx[t + 1]))), [ridx[t + 1]])),
+         forall(t, z3.Implies(z3.And(1 <= t, t < m), z3.Not(jn(ridx[t - 1], ridx[t]))), [ridx[t]])),
         ('chain_total_is_finite_and_equals_best_cumulated_score', z3.And(F_.tot == cum[b0].v, z3.Not(cum[b0].ninf))),
         # optimality: induction over the length of an arbitrary order-respecting selection ending at k
         ('optimality_base_single_segment', forall(k, z3.Implies(rng(0, k, n), score(k) <= cum[k].v), [cum.raw(k).v])),
